@@ -64,6 +64,17 @@ def cases(rng, tier):
             for inner_cid in ("absent", "same", "other"):
                 for _ in range(n):
                     out.append({"t": "jar", "client": cid, "signer": signer, "inner_cid": inner_cid, "conflict": rng.choice(["redirect_uri", "scope", "state", None])})
+                    # claims that steer key selection / the checks made before verification: issuer, expiry, whose redirect_uri
+                    out.append({"t": "jar", "client": cid, "signer": signer, "inner_cid": inner_cid, "conflict": None,
+                                "iss": rng.choice(["own", "other", "absent"]), "exp": rng.choice([None, "expired", "future"]),
+                                "inner_ruri": rng.choice(["own", "other"]) if inner_cid == "other" else "own"})
+    for cid in ("c_rs", "c_es", "c_any"):
+        for signer in ("own_rs", "own_es", "other_client"):
+            for iss in ("own", "other", "absent"):
+                for exp in (None, "expired"):
+                    for inner_cid in ("same", "other"):
+                        out.append({"t": "jar", "client": cid, "signer": signer, "inner_cid": inner_cid, "conflict": None, "iss": iss, "exp": exp,
+                                    "inner_ruri": "other" if inner_cid == "other" else "own"})
     for _ in range(40 * n):
         ops = []
         npush = 0
@@ -105,6 +116,14 @@ def _object(E, c):
     elif signer == "other_client":
         alg, keys, verifies = "ES256", E.kj[other].get_signing_key("EC", ""), False
     inner["iss"] = iss
+    if c.get("iss") == "other":
+        inner["iss"] = other
+    elif c.get("iss") == "absent":
+        del inner["iss"]
+    if c.get("exp"):
+        inner["exp"] = T0 - 1000 if c["exp"] == "expired" else T0 + 1000
+    if c.get("inner_ruri") == "other":
+        inner["redirect_uri"] = RED.format(other)
     inner["aud"] = E.s.context.issuer
     if alg == "none":
         tok = JWS(json.dumps(inner), alg="none").sign_compact([])
@@ -170,7 +189,8 @@ def model_lines(c, obs):
         cid = c["client"]
         other = "c_es" if cid != "c_es" else "c_rs"
         inner = {"absent": "-", "same": enc_str(cid), "other": enc_str(other)}[c["inner_cid"]]
-        ro = f"{'1' if obs['verifies'] else '0'}:{obs['alg']}:{inner}"
+        iss = {"own": enc_str(cid), "other": enc_str(other), "absent": "-"}[c.get("iss", "own")]
+        ro = f"{'1' if obs['verifies'] else '0'}:{obs['alg']}:{inner}:{iss}"
         return ["\t".join(["jar", "byvalue", E.reg[cid] or "-", ",".join(E.prov_algs), enc_str(cid), ro])]
     lines = ["jar\tpar\treset"]
     npush = 0
